@@ -400,6 +400,7 @@ def c15(tier):
                     ck.violation("check issued %d storage calls, the exhaustive evaluation of the spec issues at most %d" % (r["calls"][qi][di], line["mc"][di]),
                                  dict(case_id(g, wi, qi, di + 1, defs), calls=r["calls"][qi][di], bound=line["mc"][di]))
     # 2. cancellation at every instant
+    transport_cancels = [0]
     inp = {"defs": defs, "groups": harness_groups(groups), "gdepth": dmax, "rdepths": rdepths, "mode": "cancel", "widths": wlast}
     recs = run_harness(binary, "check", inp)
     for r in recs:
@@ -422,6 +423,19 @@ def c15(tier):
                 ck.violation("storage calls exceed the bound", dict(cid, calls=r["cn"][k], bound=line["mc"][r["d"] - 1]))
             elif 0 < k <= r["n"] and len(ck.samples) < 4:
                 ck.sample(cid)
+        # the same cancellation through the API handlers, with storage that is slow (4 s) unless its context is done
+        for tr, k, ms, status in r.get("tc") or []:
+            ck.evaluations += 1
+            transport_cancels[0] += 1
+            cid = dict(case_id(g, r["w"], r["q"], r["d"], defs), transport=tr, cancel_before_call=k, elapsed_ms=ms, status=status)
+            if status == "hang":
+                ck.violation("a cancelled %s check did not return within 10 s" % tr, cid)
+            elif str(status).startswith("panic"):
+                ck.violation("a cancelled %s check panicked: %s" % (tr, status), cid)
+            elif ms > 2000:
+                ck.violation("a %s check whose request context was cancelled before storage call %d returned only after %d ms: the cancellation "
+                             "does not reach the storage calls (they return at once when their context is done, after 4 s otherwise)" % (tr, k, ms), cid)
+            ck.nontrivial.add((r["g"], r["q"], r["d"], tr, k))
     # 3. faults: the check still returns
     inp = {"defs": defs, "groups": harness_groups(groups), "gdepth": dmax, "rdepths": rdepths[-1:], "mode": "fault", "widths": wlast}
     recs = run_harness(binary, "check", inp)
@@ -441,7 +455,9 @@ def c15(tier):
                 ck.violation("storage calls under a fault exceed the bound", dict(case_id(g, r["w"], r["q"], r["d"], defs), calls=n, bound=line["mc"][r["d"] - 1]))
     checkgroup_model(ck, tier)
     cg_traces(ck, binary, defs, groups[: (40 if tier == "quick" else 200)], dmax, tier)
-    ck.rule = ("sampled CheckCases.tla cases; context cancelled before the call and at the gate before every storage call k, "
+    ck.extra["cancellations_through_api_handlers"] = transport_cancels[0]
+    ck.rule = ("sampled CheckCases.tla cases; context cancelled before the call and at the gate before every storage call k (engine), and at the first, middle and last "
+               "storage call through the REST, gRPC and gRPC batch handlers with storage that honours its context and is slow otherwise; "
                "every storage call failing; goroutine dump after return; non-trivial: cancellation landed while the check was running")
     ck.assumptions = ["'returns' is decided with a 10 s grace period, 'no goroutine remains' by goroutine dumps polled for 5 s",
                       "the bound on storage calls is the call count of the spec's exhaustive (no short-circuit) evaluation"]
